@@ -147,6 +147,7 @@ func (vc *VC) builtinCopy(st *State, dst, src Val, rt types.Type) Val {
 // builtinAppend models append(s, elems...) for a literal slice of elements (the
 // compiler-generated varargs slice) or append(s, t...).
 func (vc *VC) builtinAppend(fr *Frame, call *ssa.CallCommon, st *State, rt types.Type) Val {
+	vc.trusted["append is modelled as always yielding a fresh backing array (no aliasing through spare capacity; holds for the slices of the verified code, which are not shared between live slice headers that are appended to)"] = true
 	s := vc.value(fr, call.Args[0])
 	add := vc.value(fr, call.Args[1])
 	slt := s.T.Underlying().(*types.Slice)
